@@ -2980,7 +2980,11 @@ class quantized_po2(base_quantizer.BaseQuantizer):  # pylint: disable=invalid-na
             self.qnoise_factor.numpy() if isinstance(
                 self.qnoise_factor, tf.Variable) else self.qnoise_factor,
         "log2_rounding":
-            self.log2_rounding
+            self.log2_rounding,
+        "use_ste":
+            self.use_ste,
+        "use_variables":
+            self.use_variables
     }
     return config
 
@@ -3154,7 +3158,11 @@ class quantized_relu_po2(base_quantizer.BaseQuantizer):  # pylint: disable=inval
             self.qnoise_factor.numpy() if isinstance(
                 self.qnoise_factor, tf.Variable) else self.qnoise_factor,
         "log2_rounding":
-            self.log2_rounding
+            self.log2_rounding,
+        "use_ste":
+            self.use_ste,
+        "use_variables":
+            self.use_variables
     }
     return config
 
